@@ -8,13 +8,11 @@ C(j, t, i, cap, nc, v1) == [J |-> j, T |-> t, I |-> i, InCap |-> cap, NoCopy |->
 V2Q == {C(2, t[1], t[2], cap, nc, FALSE) : t \in {<<0, 0>>, <<4, 2>>}, cap \in {0, 1}, nc \in BOOLEAN}
 V2ReadyQ == {C(j, t[1], t[2], 1, nc, FALSE) : j \in {2, 3}, t \in {<<4, 4>>, <<4, 2>>, <<4, 1>>}, nc \in BOOLEAN}
 V1Q == {C(2, t[1], t[2], 1, nc, TRUE) : t \in {<<0, 0>>, <<2, 1>>}, nc \in BOOLEAN}
-\* thorough tier: JoinSize 2..3, JoinSize 2..3, T = 4 with Div 2 and 4, and no timeout; input capacity 0..1; copy and no-copy
+\* thorough tier: JoinSize 2..3, T = 4 with Div 2 and 4, and no timeout; input capacity 0..1; copy and no-copy
 V2Small == {C(j, t[1], t[2], cap, nc, FALSE) : j \in {2, 3}, t \in {<<0, 0>>, <<4, 2>>, <<4, 1>>}, cap \in {0, 1}, nc \in BOOLEAN}
 V2Ready == {C(j, t[1], t[2], cap, nc, FALSE) : j \in {2, 3}, t \in {<<4, 4>>, <<4, 2>>, <<4, 1>>}, cap \in {0, 1, 2}, nc \in BOOLEAN}
-V2Large == {C(j, t[1], t[2], cap, nc, FALSE) : j \in {1, 2, 3}, t \in {<<0, 0>>, <<4, 4>>, <<4, 2>>, <<4, 1>>, <<1, 1>>}, cap \in {0, 1, 2}, nc \in BOOLEAN}
 \* v1: Stop / Cancel enabled in every state
 V1Small == {C(j, t[1], t[2], cap, nc, TRUE) : j \in {2}, t \in {<<0, 0>>, <<4, 2>>}, cap \in {0, 1}, nc \in BOOLEAN}
-V1Large == {C(j, t[1], t[2], cap, nc, TRUE) : j \in {1, 2, 3}, t \in {<<0, 0>>, <<4, 2>>, <<4, 1>>}, cap \in {0, 1, 2}, nc \in BOOLEAN}
 \* tiny configurations whose whole state graph is dumped to derive replay schedules
 V2Tiny == {C(2, 2, 1, 1, nc, FALSE) : nc \in BOOLEAN}
 V1Tiny == {C(2, 2, 1, 1, nc, TRUE) : nc \in BOOLEAN}
